@@ -35,6 +35,7 @@ TraceD4 ==
           /\ o.sent => /\ o.opcode = 2                                            \* a BOOTREPLY ...
                        /\ o.eqxid /\ o.eqhtype /\ o.eqchaddr /\ o.eqflags /\ o.eqgiaddr   \* ... carrying the request's fields
                        /\ o.eqrai /\ o.eqcid                                      \* and echoing options 82 and 61
+                       /\ o.frame => o.fecho                                      \* ... in the frame that leaves, on the link-level path
      /\ ("C13" \in Lens) => (o.sent <=> exp.sent) /\ o.n <= 1                      \* nil response: nothing is sent; otherwise it is
      /\ ("C15" \in Lens) =>
           ((o.sent /\ exp.sent /\ (in.bound # 0 \/ in.oobif # 0)) =>
